@@ -3,7 +3,7 @@
 import json, os
 import common, rp_common
 
-TRANSLATORS = ['t_report', 't_step', 't_interp']
+TRANSLATORS = ['t_report', 't_step', 't_interp', 't_shell']
 TRUSTED = ['modelled, not verified: open/read/stat/readdir as delivered by the kernel, vsnprintf ("%s" and "%.*s" stop at a NUL byte, '
            '"%d", "%02d"), printf("%s", NULL) printing "(null)" (glibc; reached only without <builddir>/target in robsd-cross mode), '
            'qsort(3) on the Size: lines and the invocation directories (total orders: any sorting function gives the same result), '
@@ -16,8 +16,11 @@ TRUSTED = ['modelled, not verified: open/read/stat/readdir as delivered by the k
            'harness can cut the report into sections; step names and log names come from the step file and hold no NUL, comma or newline',
            'status theorem hypotheses (explicit in C05_status_ok_iff): skipped rows carry exit 0 (regress, canvas); sequential modes: '
            'every non-skipped row other than the last non-skipped one has exit 0 - that the orchestrator only produces such files is '
-           'proved with the orchestrator model of C03/C04/C11, not by this check; the status oracle is applied to files meeting the hypotheses, '
-           'the correspondence to every generated file']
+           'proved (C05_status_orchestrated: entry scripts, sequential and parallel loop under every schedule, crashes and resumed runs, on the '
+           'same rows of the step file); the status oracle is applied to the generated files meeting the hypotheses, the correspondence to every '
+           'generated file (the generator also produces files no orchestrator writes)',
+           'no report at all (exit 1, empty output) when a file of a listed row cannot be read is the specified behaviour (C05_report_main_silent): '
+           'outside the property for the orchestrator\'s own files (tee creates every log); counted in the input distribution']
 
 
 def stats(res, c, rc, rep):
@@ -40,6 +43,15 @@ def stats(res, c, rc, rep):
     for i in failing:
         e = rows[i]['exit']
         res.count('exit_code=%s' % (e if e in (-1, 1, 2, 124, 127, 255) else 'wide'))
+    # the hypotheses of C05_status_ok_iff (discharged for orchestrator-written files by C05_status_orchestrated):
+    # where they hold the status oracle judges the implementation, elsewhere only the correspondence does
+    if c['mode'] in ('robsd-regress', 'canvas'):
+        hyp = all(r['exit'] == 0 for r in rows if r['skip'] == 1)
+    else:
+        hyp = all(all(x['skip'] == 1 for x in rows[i + 1:]) for i in failing)
+    res.count('status_hypotheses=%s' % ('hold (oracle judges)' if hyp else 'violated (correspondence only)'))
+    if rc == 1 and failing and c.get('running', True) and c.get('step_present', True):
+        res.count('caveat: a step failed and a file of a listed row is missing: no report at all, as specified (C05_report_main_silent)')
     if any(r['skip'] == 1 for r in rows):
         res.count('has_skipped_row')
     if any(r['name'] == 'end' for r in rows):
